@@ -26,6 +26,8 @@ def face_grid(rng, N, nfaces, table, stagger=False, third=False, nextra=0):
         fcs["order"] = order
     if rng.random() < 0.3:
         fcs["npbool"] = True
+    if rng.random() < 0.2:
+        fcs["labels"] = "reversed"
     return {"axes": axes, "extra": extra, "faces": fcs}
 
 
